@@ -140,6 +140,9 @@ fn tracker_velocity_mismatch<H: Copy + Into<f64> + std::fmt::Debug, S: Copy + In
 }
 
 pub fn replay(pid: &'static str, v: &Value) -> Vec<Failure> {
+    if v.get("kind").and_then(|k| k.as_str()) == Some("first_use") {
+        return replay_first_use(pid, v);
+    }
     if v.get("kind").and_then(|k| k.as_str()) == Some("serde_code") {
         let Some(b) = v.get("hex").and_then(|h| h.as_str()).and_then(bits::unhex) else { return vec![] };
         return match crate::configs::serde_frame(&b) {
@@ -268,6 +271,42 @@ fn alt_class(ft: Option<i64>, code: u32, is13: bool) -> &'static str {
 pub fn run_c06(ctx: &Ctx) -> ! {
     let k = ctx.tier.pick(2usize, 24);
     let eval = eval_for("C06");
+    // ---- first use under contention: the first altitude codes a fresh process decodes, eight
+    // at once (Gillham and 25 ft codes in DF0 / DF4 / DF16 / DF20 and in position reports)
+    let mut pre = Stats::default();
+    {
+        let mut rng = ctx.rng(606, 0);
+        let rounds = ctx.tier.pick(240usize, 4000);
+        let codes13 = [0x0980u64, 0x0182, 0x1028, 0x0a24, 0x0c62, 0x1580, 0x1e97, 0x0f3f];
+        let jobs: Vec<Vec<Vec<u8>>> = (0..rounds)
+            .map(|r| {
+                (0..8)
+                    .map(|t| {
+                        let c13 = codes13[(r + t) % codes13.len()];
+                        let df = [4u8, 0, 20, 16, 17, 17, 4, 17][if r % 3 == 0 { r / 3 % 8 } else { (r + t) % 8 }];
+                        let mut b = gen_frame_df(&mut rng, df);
+                        if df == 17 {
+                            let me = gen_me(&mut rng, 11);
+                            b[4..11].copy_from_slice(&me);
+                            set(&mut b, 32 + 9, 12, ((c13 & 0x1f80) >> 1) | (c13 & 0x3f));
+                        } else {
+                            set(&mut b, 20, 13, c13);
+                        }
+                        b
+                    })
+                    .collect()
+            })
+            .collect();
+        pre.evaluations += (rounds * 8) as u64;
+        pre.class_n("first altitude codes of a fresh process under contention", (rounds * 8) as u64);
+        if let Some((ji, kx, here, there)) = first_use_contention(&jobs) {
+            pre.fail(Failure {
+                sig: "C06/first_use_race".into(),
+                msg: format!("eight threads of a fresh process decode their first frame at the same moment: frame {} comes out as `{}`, decoded here it is `{}`", bits::hex(&jobs[ji][kx]), there.chars().take(200).collect::<String>(), here.chars().take(200).collect::<String>()),
+                replay: json!({"kind": "first_use", "frames": jobs[ji].iter().map(|b| bits::hex(b)).collect::<Vec<_>>()}),
+            });
+        }
+    }
     // cells: (carrier index, code)
     let carriers13 = [0u8, 4, 16, 20];
     let tcs12: Vec<u8> = (9..=18).chain(20..=22).collect();
@@ -311,7 +350,42 @@ pub fn run_c06(ctx: &Ctx) -> ! {
                 run_case(st, "fields", &b, &eval);
             }
         }
+        // ---- every code right after each of its one-bit neighbours (and after a two-bit one),
+        // in the same or the other field width: a decoder that remembers its last code must not
+        // answer from memory
+        let mk = |rng: &mut TestRng, wide: bool, c: u32, sel: u32| -> Vec<u8> {
+            if wide {
+                let mut b = gen_frame_df(rng, [0u8, 4, 16, 20][(sel % 4) as usize]);
+                set(&mut b, 20, 13, c as u64);
+                b
+            } else {
+                let mut b = gen_frame_df(rng, if sel % 2 == 0 { 17 } else { 18 });
+                let me = gen_me(rng, [9u8, 11, 18, 20, 22][(sel % 5) as usize]);
+                b[4..11].copy_from_slice(&me);
+                set(&mut b, 32 + 9, 12, c as u64);
+                b
+            }
+        };
+        // the 12-bit field is the 13-bit one without its M bit (bit 6)
+        let to12 = |c13: u32| ((c13 & 0x1f80) >> 1) | (c13 & 0x3f);
+        for code in 0..8192u32 {
+            if code as usize % WORKERS != w {
+                continue;
+            }
+            for bit in 0..13u32 {
+                let nb = code ^ (1 << bit) ^ if bit % 5 == 4 { 1 << ((bit + 6) % 13) } else { 0 };
+                // neighbour in a 13-bit carrier (or, every third time, the 12-bit one), then the code
+                let before = if (code + bit) % 3 == 0 && nb & 0x40 == 0 { mk(&mut rng, false, to12(nb), code + bit) } else { mk(&mut rng, true, nb, code + bit) };
+                let _ = decode(&before);
+                let b = if (code / 3 + bit) % 4 == 0 && code & 0x40 == 0 { mk(&mut rng, false, to12(code), code) } else { mk(&mut rng, true, code, code / 7) };
+                st.nontrivial_enum += 1;
+                run_case(st, "fields", &b, &eval);
+            }
+            st.class_n("code right after a neighbouring code", 13);
+        }
     });
+    st.merge(pre);
+    st.exhaustive.push("all 8192 13-bit codes, each decoded right after each of its 13 one-bit neighbours (carriers and field widths cycled)".into());
     st.exhaustive.push("all 8192 AC13 codes x {DF0,DF4,DF16,DF20}".into());
     st.exhaustive.push("all 4096 AC12 codes x TC{9..18,20..22} x {DF17,DF18}".into());
     let mut vac = vec![];
@@ -338,8 +412,93 @@ pub fn run_c06(ctx: &Ctx) -> ! {
 pub fn run_c09(ctx: &Ctx) -> ! {
     let k = ctx.tier.pick(3usize, 48);
     let eval = eval_for("C09");
+    // ---- first use under contention: fresh processes whose first act is to decode eight
+    // identity-carrying frames at once (anything built lazily at first use is built under
+    // contention); the result must be what this process decodes
+    let mut pre = Stats::default();
+    {
+        let mut rng = ctx.rng(909, 0);
+        let rounds = ctx.tier.pick(240usize, 4000);
+        let jobs: Vec<Vec<Vec<u8>>> = (0..rounds)
+            .map(|r| {
+                (0..8)
+                    .map(|t| {
+                        let code = [0x1fbfu64, 0x0aaa, 0x1555, 0x0001, 0x1000, 0x0fff][(r + t) % 6] ^ (rng.below(4) << 5);
+                        match (r / 3 + t) % 3 {
+                            0 => {
+                                let mut b = gen_frame_df(&mut rng, 5);
+                                set(&mut b, 20, 13, code);
+                                b
+                            }
+                            1 => {
+                                let mut b = gen_frame_df(&mut rng, 21);
+                                set(&mut b, 20, 13, code);
+                                b
+                            }
+                            _ => {
+                                let mut b = gen_frame_df(&mut rng, 17);
+                                let me = gen_me(&mut rng, 28);
+                                b[4..11].copy_from_slice(&me);
+                                set(&mut b, 32 + 12, 13, code);
+                                b
+                            }
+                        }
+                    })
+                    .collect()
+            })
+            .collect();
+        // (a job whose frames are all of one carrier every third round: r / 3 + t varies with t,
+        // so make every third job uniform)
+        let jobs: Vec<Vec<Vec<u8>>> = jobs.into_iter().enumerate().map(|(r, j)| if r % 3 == 0 { let df = j[0][0] >> 3; let first: Vec<Vec<u8>> = j.iter().filter(|b| b[0] >> 3 == df).cloned().collect(); (0..8).map(|t| first[t % first.len()].clone()).collect() } else { j }).collect();
+        pre.evaluations += (rounds * 8) as u64;
+        pre.class_n("first identity codes of a fresh process under contention", (rounds * 8) as u64);
+        if let Some((ji, kx, here, there)) = first_use_contention(&jobs) {
+            pre.fail(Failure {
+                sig: "C09/first_use_race".into(),
+                msg: format!("eight threads of a fresh process decode their first frame at the same moment: frame {} comes out as `{}`, decoded here it is `{}`", bits::hex(&jobs[ji][kx]), there.chars().take(200).collect::<String>(), here.chars().take(200).collect::<String>()),
+                replay: json!({"kind": "first_use", "frames": jobs[ji].iter().map(|b| bits::hex(b)).collect::<Vec<_>>()}),
+            });
+        }
+    }
     let mut st = parallel(|w, st| {
         let mut rng = ctx.rng(9, w as u64);
+        // ---- every code right after each of its 13 one-bit neighbours, same and other carrier
+        // (a decoder that remembers its last field must not answer from memory)
+        for code in 0..8192u32 {
+            if code as usize % WORKERS != w {
+                continue;
+            }
+            for bit in 0..13u32 {
+                let mk = |rng: &mut TestRng, carrier: u32, c: u32| -> Vec<u8> {
+                    match carrier {
+                        0 => {
+                            let mut b = gen_frame_df(rng, 5);
+                            set(&mut b, 20, 13, c as u64);
+                            b
+                        }
+                        1 => {
+                            let mut b = gen_frame_df(rng, 21);
+                            set(&mut b, 20, 13, c as u64);
+                            b
+                        }
+                        _ => {
+                            let mut b = gen_frame_df(rng, if carrier == 2 { 17 } else { 18 });
+                            let me = gen_me(rng, 28);
+                            b[4..11].copy_from_slice(&me);
+                            set(&mut b, 32 + 12, 13, c as u64);
+                            b
+                        }
+                    }
+                };
+                let (c1, c2) = ((code + bit) % 4, (code / 4 + bit) % 4);
+                let before = mk(&mut rng, c1, code ^ (1 << bit));
+                let _ = decode(&before);
+                let b = mk(&mut rng, c2, code);
+                st.nontrivial_enum += 1;
+                run_case(st, "fields", &b, &eval);
+            }
+            st.class_n("code right after a one-bit neighbour", 13);
+        }
         // carriers: 0 = DF5, 1 = DF21, 2 = DF17 TC28, 3 = DF18 TC28
         for code in 0..8192u32 {
             if code as usize % WORKERS != w {
@@ -414,7 +573,9 @@ pub fn run_c09(ctx: &Ctx) -> ! {
             }
         }
     });
+    st.merge(pre);
     st.exhaustive.push("all 8192 identity codes x {DF5, DF21, DF17/TC28, DF18/TC28}".into());
+    st.exhaustive.push("all 8192 identity codes, each decoded right after each of its 13 one-bit neighbours (carrier pairs cycled)".into());
     st.exhaustive.push("all 64 subtype x emergency-state values x {DF17, DF18}".into());
     st.exhaustive.push("the complete product subtype x emergency x identity code (64 x 8192) for type 28 under DF17 and DF18".into());
     finish(
